@@ -6,19 +6,8 @@ from pathlib import Path
 VERIF = Path(__file__).resolve().parent.parent
 PY = "/venv/bin/python"
 
-COMMON_NOTE = ("Trusted: Lean 4.33 kernel + {propext, Classical.choice, Quot.sound}; the hand-written Lean model; the "
-               "correspondence harness (generators, canonicalisation, driver JSON protocol). ")
-
-CHECKS = {
-    "C12": dict(
-        design="5.12",
-        text=("Lean theorems over the model of window/noncorr_window/get_one_tau_transition_matrix for every trajectory, n, "
-              "tau>=1, both modes: entry formula, zero rows, unit row sums, [0,1] bounds, detailed balance, reversal "
-              "invariance (sliding). Tie to the code: exhaustive + random correspondence of model and implementation, "
-              "entry by entry; the statement's formula is also evaluated on the implementation (failing-input search)."),
-        note=COMMON_NOTE + "scipy dok/csr arithmetic is compared within 1 ulp-scale tolerance; cell indices are assumed in range (the code raises IndexError otherwise, modelled).",
-        technique="Lean 4 proof over executable model + differential correspondence (exhaustive small trajectories)"),
-}
+# one fragment per property: harness/manifest/Cxx.json = {"design": "5.12", "text": ..., "note": ..., "technique": ...}
+CHECKS = {p.stem: json.loads(p.read_text()) for p in sorted((VERIF / "harness" / "manifest").glob("C*.json"))}
 
 ALL = [f"C{i:02d}" for i in range(1, 21)]
 PENDING_REASON = "check not built yet in this revision (planned, see DESIGN.md section 9); no claim is made until its model, theorems and correspondence exist"
